@@ -42,6 +42,7 @@ class Contract:
         self.returns = g('returns', None)
         self.modifies = list(g('modifies', []))
         self.loops = dict(g('loops', {}))
+        self.maps = dict(g('maps', {}))      # {ordinal of a comprehension: {elem: Shape, ensures: [...]}}
         self.each_yield = list(g('each_yield', []))
         self.yield_shape = g('yield_shape', None)
         self.inline = g('inline', False)
